@@ -26,6 +26,14 @@ func depthFor(c *engine.Ctx) int {
 	return 2
 }
 
+// deepDepth is the depth bound of the checks whose per-message cost is a few microseconds.
+func deepDepth(c *engine.Ctx) int {
+	if c.Thorough() {
+		return 4
+	}
+	return 2
+}
+
 func init() {
 	engine.Register(&engine.Check{
 		ID:    "C03",
@@ -35,7 +43,7 @@ func init() {
 		Assumptions: []string{"equality is on the exported-field projection with nil ≡ empty byte strings; header NextPayload/PayloadBytes are bookkeeping and excluded",
 			"field contents beyond the swept dimension are drawn from fixed patterns (DESIGN 9)"},
 		Run: func(c *engine.Ctx) {
-			univ.Messages(depthFor(c), func(name string, m ref.Msg) {
+			univ.Messages(deepDepth(c), func(name string, m ref.Msg) {
 				if c.Mine() {
 					evalC03(c, c03Case{Name: name, M: m, Fits: true})
 				}
@@ -84,6 +92,19 @@ func evalC03(c *engine.Ctx, cs c03Case) {
 		return
 	}
 	c.Sample("message", map[string]string{"name": cs.Name, "wire": engine.Hex(trunc(b, 96))})
+	// the same message with the caller's slices laid out adversarially (sibling slices carved from one backing
+	// array) must encode to the same bytes
+	if hasNested(m) {
+		if lr, berr := univ.Build(m); berr == nil {
+			univ.RelayoutMode(&lr.Payloads, 1)
+			var rb []byte
+			var rerr error
+			if rpi := engine.Catch(func() { rb, rerr = lr.Encode() }); rpi != nil || rerr != nil || string(rb) != string(b) {
+				c.Violate("roundtrip/encoding-depends-on-memory-layout", fmt.Sprintf("%s: with sibling slices sharing one backing array the message encodes differently (err=%v)", cs.Name, rerr), cs)
+				return
+			}
+		}
+	}
 	lm2, derr, pi := decodeLib(b)
 	c.Transitions++
 	c.Traces++
@@ -153,4 +174,13 @@ func trs(s string) string {
 		return s[:240] + "…"
 	}
 	return s
+}
+
+func hasNested(m ref.Msg) bool {
+	for _, p := range m.P {
+		if p.T == ref.PSA || p.T == ref.PTSi || p.T == ref.PTSr || p.T == ref.PCP {
+			return true
+		}
+	}
+	return false
 }
